@@ -155,6 +155,8 @@ def setup(concepts, spec):
         attach.attach(lm.Infimum, 'minimal', MinimalMonitor(cap, bound, True))
     else:
         COL.count('Infimum.minimal_override_absent')
+    global POOL
+    POOL = common.Pool(5)
 
 
 def cases(tier, seed, spec):
@@ -201,6 +203,15 @@ def run_case(concepts, case, spec):
         if g is not RAISED:
             call(list, g)
         call(c.minimal)
+    old = POOL.older(rng)
+    if old is not None:
+        c = rng.choice(old)
+        g = call(c.attributes)
+        if g is not RAISED:
+            call(list, g)
+        call(c.minimal)
+        COL.count('session_requeries')
+    POOL.add(list(which)[:8])
     for _ in range(2):
         c = rng.choice(members)
         g = call(c.attributes)
